@@ -1,319 +1,214 @@
 /-
-C18, text level, part A2: a string printed by strconv.Quote, and a raw object key, are
-inert for the pre-pass exactly when `prepassHits` is false (no `)`, no wrapper-opening
-text, no trailing `BinData(` / `Date(`).  Core Lean only.
+C18, text level, part A2 (pre-pass of /repo commit 0cf3884e): string literals – whatever
+strconv.Quote printed, raw keys without quote or backslash, base64 and date payloads –
+are copied verbatim, and the text between two literals is rewritten on its own.
+Core Lean only.
 -/
 import YorkieModel.Lemmas.YsonPrepass
 namespace Yorkie.Yson
 
-/-! ### occurrences as infixes -/
+/-! ### the scanner outside string literals -/
 
-theorem containsSub_iff {p : Str} : ∀ {s : Str}, containsSub p s = true ↔ p <:+: s
-  | [] => by
-    simp only [containsSub, List.isEmpty_iff, List.infix_nil]
-  | c :: r => by
-    simp only [containsSub, Bool.or_eq_true, isPrefixOf_iff, containsSub_iff (s := r), List.infix_cons_iff]
+/-- the part of the text up to the next quote -/
+def outPrefix : Str → Str
+  | [] => []
+  | c :: r => if c == 34 then [] else c :: outPrefix r
 
-theorem containsSub_false_iff {p s : Str} : containsSub p s = false ↔ ¬ p <:+: s := by
-  rw [← containsSub_iff]; simp
+/-- what the scanner emits from the next quote on -/
+def afterOut : Str → Str
+  | [] => []
+  | c :: r => if c == 34 then 34 :: ppIn r else afterOut r
 
-theorem endsWith_iff {suf s : Str} : endsWith suf s = true ↔ suf <:+ s := by
-  simp only [endsWith, isPrefixOf_iff, List.reverse_prefix]
+theorem ppOut_eq : ∀ (t p : Str), ppOut p t = preprocessTokens (p ++ outPrefix t) ++ afterOut t
+  | [], p => by simp [ppOut, outPrefix, afterOut]
+  | c :: r, p => by
+    simp only [ppOut, outPrefix, afterOut]
+    split
+    · simp
+    · rw [ppOut_eq r (p ++ [c])]; simp
 
-/-- first characters of the patterns -/
-def startChar (c : Nat) : Bool := c == 68 || c == 84 || c == 67 || c == 73 || c == 76 || c == 66 || c == 41
+/-- flushing a pending piece early is harmless when `preprocessTokens` distributes after it -/
+theorem ppOut_flush {seg : Str} (hd : Dist seg) (t : Str) :
+    ppOut seg t = preprocessTokens seg ++ ppOut [] t := by
+  rw [ppOut_eq t seg, ppOut_eq t [], hd]
+  simp
 
-def headStart : Str → Bool
-  | h :: _ => startChar h
-  | [] => false
+theorem ppOut_noquote : ∀ (o seg rest : Str), (∀ c ∈ o, c ≠ 34) → ppOut seg (o ++ rest) = ppOut (seg ++ o) rest
+  | [], seg, rest, _ => by simp
+  | c :: o, seg, rest, h => by
+    have hc : (c == 34) = false := by simpa using h c (List.mem_cons_self)
+    simp only [List.cons_append, ppOut, hc, Bool.false_eq_true, if_false]
+    rw [ppOut_noquote o (seg ++ [c]) rest (fun x hx => h x (List.mem_cons_of_mem _ hx))]
+    simp
 
-theorem allPats_headStart : allPats.all headStart = true := by decide
-theorem allPats_no92 : allPats.all (fun p => p.all (· != 92)) = true := by decide
-theorem allPats_no58 : allPats.all (fun p => p.all (· != 58)) = true := by decide
+/-! ### complete literal bodies -/
 
-theorem isPrefixOf_cons_ne {p : Str} {x : Nat} {Y : Str} (hp : headStart p = true) (hx : startChar x = false) :
-    ¬ p <+: x :: Y := by
-  cases p with
-  | nil => simp [headStart] at hp
-  | cons h p' =>
-    intro hpre
-    have : h = x := by
-      obtain ⟨t, ht⟩ := hpre
-      simp only [List.cons_append, List.cons.injEq] at ht
-      exact ht.1
-    subst this
-    simp only [headStart] at hp
-    simp [hp] at hx
+/-- the text after an opening quote up to (not including) the closing one: no bare quote,
+every backslash followed by the character it escapes -/
+def litBody : Str → Bool
+  | [] => true
+  | [c] => c != 34 && c != 92
+  | c :: d :: r => if c == 34 then false else if c == 92 then litBody r else litBody (d :: r)
 
-/-- an occurrence cannot start on a character that starts no pattern -/
-theorem infix_skip {p : Str} (hp : headStart p = true) : ∀ {u Y : Str}, (∀ x ∈ u, startChar x = false) →
-    p <:+: u ++ Y → p <:+: Y
-  | [], _, _, h => h
-  | x :: u, Y, hu, h => by
-    simp only [List.cons_append, List.infix_cons_iff] at h
-    rcases h with h | h
-    · exact absurd h (isPrefixOf_cons_ne hp (hu x (List.mem_cons_self)))
-    · exact infix_skip hp (fun y hy => hu y (List.mem_cons_of_mem _ hy)) h
+theorem ppIn_lit : ∀ (body rest : Str), litBody body = true → ppIn (body ++ 34 :: rest) = body ++ 34 :: ppOut [] rest
+  | [], rest, _ => by simp [ppIn]
+  | [c], rest, h => by
+    simp only [litBody, Bool.and_eq_true, bne_iff_ne, ne_eq] at h
+    simp [ppIn, h.1, h.2]
+  | c :: d :: r, rest, h => by
+    simp only [litBody] at h
+    by_cases h34 : (c == 34) = true
+    · simp [h34] at h
+    · by_cases h92 : (c == 92) = true
+      · simp only [h34, h92, Bool.false_eq_true, if_false, if_true] at h
+        have hc : c = 92 := by simpa using h92
+        subst hc
+        have e : ppIn (92 :: d :: r ++ 34 :: rest) = 92 :: d :: ppIn (r ++ 34 :: rest) := by
+          simp only [List.cons_append]
+          rw [ppIn]
+          simp [ppEsc]
+        rw [e, ppIn_lit r rest h]
+        simp
+      · simp only [h34, h92, Bool.false_eq_true, if_false] at h
+        have e : ppIn (c :: d :: r ++ 34 :: rest) = c :: ppIn (d :: r ++ 34 :: rest) := by
+          simp only [List.cons_append]
+          rw [ppIn]
+          simp [h34, h92]
+        rw [e, ppIn_lit (d :: r) rest h]
+        simp
 
-/-! ### strconv.Quote: every character is written as itself or as `\` + characters that start no pattern -/
+theorem litBody_of_clean : ∀ {s : Str}, (∀ c ∈ s, c ≠ 34 ∧ c ≠ 92) → litBody s = true
+  | [], _ => rfl
+  | [c], h => by
+    have := h c (List.mem_cons_self)
+    simp [litBody, this.1, this.2]
+  | c :: d :: r, h => by
+    have hc := h c (List.mem_cons_self)
+    simp only [litBody, beq_iff_eq, hc.1, hc.2, if_false]
+    exact litBody_of_clean (fun x hx => h x (List.mem_cons_of_mem _ hx))
 
-theorem startChar_hexDigit : ∀ n, n < 16 → startChar (hexDigit n) = false := by decide
+theorem litBody_append : ∀ {a b : Str}, litBody a = true → litBody b = true → litBody (a ++ b) = true
+  | [], _, _, hb => by simpa using hb
+  | [c], b, ha, hb => by
+    simp only [litBody, Bool.and_eq_true, bne_iff_ne, ne_eq] at ha
+    cases b with
+    | nil => simp [litBody, ha.1, ha.2]
+    | cons d r => simp [litBody, ha.1, ha.2, hb]
+  | c :: d :: r, b, ha, hb => by
+    simp only [litBody] at ha
+    simp only [List.cons_append, litBody]
+    by_cases h34 : (c == 34) = true
+    · simp [h34] at ha
+    · by_cases h92 : (c == 92) = true
+      · simp only [h34, h92, Bool.false_eq_true, if_false, if_true] at ha ⊢
+        exact litBody_append ha hb
+      · simp only [h34, h92, Bool.false_eq_true, if_false] at ha ⊢
+        have := litBody_append (a := d :: r) ha hb
+        simpa using this
 
-theorem quoteChar_shape (c : Nat) :
-    (quoteChar c = [c] ∧ c ≠ 34 ∧ c ≠ 92) ∨ (∃ t, quoteChar c = 92 :: t ∧ ∀ x ∈ t, startChar x = false) := by
-  unfold quoteChar
+theorem litBody_esc {e : Nat} {t : Str} (ht : litBody t = true) : litBody (92 :: e :: t) = true := by
+  simp [litBody, ht]
+
+theorem hexDigit_clean (n : Nat) : hexDigit n ≠ 34 ∧ hexDigit n ≠ 92 := by
+  simp only [hexDigit]; split <;> omega
+
+/-- whatever strconv.Quote writes for one character is a complete piece of a literal body -/
+theorem litBody_quoteChar (c : Nat) : litBody (quoteChar c) = true := by
+  have hx := hexDigit_clean
   by_cases h34 : c = 34
-  · subst h34; right; exact ⟨[34], by simp, by decide⟩
+  · subst h34; decide
   by_cases h92 : c = 92
-  · subst h92; right; exact ⟨[92], by simp, by decide⟩
-  simp only [beq_iff_eq, h34, h92, if_false]
+  · subst h92; decide
   by_cases hp : isPrint c = true
-  · left; simp [hp, h34, h92]
-  simp only [hp, Bool.false_eq_true, if_false]
-  right
-  have hx : ∀ n, n < 16 → startChar (hexDigit n) = false := startChar_hexDigit
-  split
-  · exact ⟨_, rfl, by decide⟩
-  split
-  · exact ⟨_, rfl, by decide⟩
-  split
-  · exact ⟨_, rfl, by decide⟩
-  split
-  · exact ⟨_, rfl, by decide⟩
-  split
-  · exact ⟨_, rfl, by decide⟩
-  split
-  · exact ⟨_, rfl, by decide⟩
-  split
-  · exact ⟨_, rfl, by decide⟩
-  split
-  · rename_i hc
-    refine ⟨_, rfl, ?_⟩
-    have hc' : c < 32 ∨ c = 127 := by simpa using hc
-    intro x hxm
-    simp only [List.mem_cons, List.not_mem_nil, or_false] at hxm
-    rcases hxm with rfl | rfl | rfl
-    · decide
-    · exact hx _ (by omega)
-    · exact hx _ (by omega)
-  split
-  · rename_i hc
-    refine ⟨_, rfl, ?_⟩
-    intro x hxm
-    simp only [List.mem_cons, List.not_mem_nil, or_false] at hxm
-    rcases hxm with rfl | rfl | rfl | rfl | rfl
-    · decide
-    · exact hx _ (by omega)
-    · exact hx _ (by omega)
-    · exact hx _ (by omega)
-    · exact hx _ (by omega)
-  · refine ⟨_, rfl, ?_⟩
-    intro x hxm
-    simp only [List.mem_cons, List.not_mem_nil, or_false] at hxm
-    rcases hxm with rfl | rfl | rfl | rfl | rfl | rfl | rfl | rfl | rfl
-    · decide
-    all_goals exact hx _ (by omega)
+  · have hq : quoteChar c = [c] := by simp [quoteChar, h34, h92, hp]
+    rw [hq]
+    show (c != 34 && c != 92) = true
+    simp [h34, h92]
+  have hp' : isPrint c = false := by simpa using hp
+  by_cases h7 : c = 7
+  · subst h7; decide
+  by_cases h8 : c = 8
+  · subst h8; decide
+  by_cases h12 : c = 12
+  · subst h12; decide
+  by_cases h10 : c = 10
+  · subst h10; decide
+  by_cases h13 : c = 13
+  · subst h13; decide
+  by_cases h9 : c = 9
+  · subst h9; decide
+  by_cases h11 : c = 11
+  · subst h11; decide
+  by_cases hctl : c < 32 ∨ c = 127
+  · have hq : quoteChar c = [92, 120, hexDigit (c / 16), hexDigit (c % 16)] := by
+      simp [quoteChar, h34, h92, hp', h7, h8, h12, h10, h13, h9, h11, hctl]
+    rw [hq]
+    exact litBody_esc (litBody_of_clean (by
+      intro x hxm
+      simp only [List.mem_cons, List.not_mem_nil, or_false] at hxm
+      rcases hxm with rfl | rfl <;> exact hx _))
+  by_cases hbig : c < 0x10000
+  · have hq : quoteChar c = [92, 117, hexDigit (c / 4096), hexDigit (c / 256 % 16), hexDigit (c / 16 % 16),
+        hexDigit (c % 16)] := by
+      have a1 : ¬ c < 32 := by omega
+      have a2 : c ≠ 127 := by omega
+      simp [quoteChar, h34, h92, hp', h7, h8, h12, h10, h13, h9, h11, a1, a2, hbig]
+    rw [hq]
+    exact litBody_esc (litBody_of_clean (by
+      intro x hxm
+      simp only [List.mem_cons, List.not_mem_nil, or_false] at hxm
+      rcases hxm with rfl | rfl | rfl | rfl <;> exact hx _))
+  · have hq : quoteChar c = [92, 85, hexDigit (c / 0x10000000 % 16), hexDigit (c / 0x1000000 % 16),
+        hexDigit (c / 0x100000 % 16), hexDigit (c / 0x10000 % 16), hexDigit (c / 4096 % 16),
+        hexDigit (c / 256 % 16), hexDigit (c / 16 % 16), hexDigit (c % 16)] := by
+      have a1 : ¬ c < 32 := by omega
+      have a2 : c ≠ 127 := by omega
+      simp [quoteChar, h34, h92, hp', h7, h8, h12, h10, h13, h9, h11, a1, a2, hbig]
+    rw [hq]
+    exact litBody_esc (litBody_of_clean (by
+      intro x hxm
+      simp only [List.mem_cons, List.not_mem_nil, or_false] at hxm
+      rcases hxm with rfl | rfl | rfl | rfl | rfl | rfl | rfl | rfl <;> exact hx _))
 
-/-- a text without backslash at the head of a quoted body is at the head of the string
-itself (and then has no `"`), or is the whole string plus the closing quote -/
-theorem prefix_quoteBody : ∀ (s q : Str), (∀ x ∈ q, x ≠ 92) → q <+: quoteBody s ++ [34] →
-    (q <+: s ∧ ∀ x ∈ q, x ≠ 34) ∨ q = s ++ [34]
-  | [], q, _, h => by
-    simp only [quoteBody, List.nil_append] at h
-    rcases List.prefix_cons_iff.mp h with rfl | ⟨t, rfl, ht⟩
-    · left; simp
-    · have : t = [] := List.prefix_nil.mp ht
-      subst this; right; rfl
-  | c :: r, [], _, _ => by left; simp
-  | c :: r, d :: q, hq, h => by
-    simp only [quoteBody, List.append_assoc] at h
-    rcases quoteChar_shape c with ⟨hc, h34, _⟩ | ⟨t, hc, _⟩
-    · rw [hc] at h
-      simp only [List.singleton_append, List.cons_prefix_cons] at h
-      obtain ⟨rfl, h'⟩ := h
-      rcases prefix_quoteBody r q (fun x hx => hq x (List.mem_cons_of_mem _ hx)) h' with ⟨h1, h2⟩ | h1
-      · left
-        refine ⟨by simpa [List.cons_prefix_cons] using h1, ?_⟩
-        intro x hx
-        rcases List.mem_cons.mp hx with rfl | hx
-        · exact h34
-        · exact h2 x hx
-      · right; simp [h1]
-    · rw [hc] at h
-      simp only [List.cons_append, List.cons_prefix_cons] at h
-      exact absurd h.1 (hq d (List.mem_cons_self))
+/-- every string printed by strconv.Quote is a complete literal – no condition on the string -/
+theorem litBody_quoteBody : ∀ (s : Str), litBody (quoteBody s) = true
+  | [] => rfl
+  | c :: r => by
+    simp only [quoteBody]
+    exact litBody_append (litBody_quoteChar c) (litBody_quoteBody r)
 
-/-- an occurrence of a pattern inside `quoteBody s ++ "` is an occurrence inside `s`
-(and then the pattern has no quote), or ends with the closing quote after a suffix of `s` -/
-theorem infix_quoteBody {p : Str} (hp : headStart p = true) (h92 : ∀ x ∈ p, x ≠ 92) :
-    ∀ (s : Str), p <:+: quoteBody s ++ [34] →
-      (p <:+: s ∧ ∀ x ∈ p, x ≠ 34) ∨ (∃ u, u <:+ s ∧ p = u ++ [34])
-  | [], h => by
-    simp only [quoteBody, List.nil_append] at h
-    have := infix_skip (u := [34]) (Y := []) hp (by decide) (by simpa using h)
-    cases p with
-    | nil => simp [headStart] at hp
-    | cons a p' => simp at this
-  | c :: r, h => by
-    simp only [quoteBody, List.append_assoc] at h
-    rcases quoteChar_shape c with ⟨hc, _, _⟩ | ⟨t, hc, ht⟩
-    · rw [hc] at h
-      simp only [List.singleton_append, List.infix_cons_iff] at h
-      rcases h with h | h
-      · have h' : p <+: quoteBody (c :: r) ++ [34] := by
-          simpa [quoteBody, hc] using h
-        rcases prefix_quoteBody (c :: r) p h92 h' with ⟨h1, h2⟩ | h1
-        · exact Or.inl ⟨h1.isInfix, h2⟩
-        · exact Or.inr ⟨c :: r, List.suffix_refl _, h1⟩
-      · rcases infix_quoteBody hp h92 r h with ⟨h1, h2⟩ | ⟨u, hu, hpu⟩
-        · exact Or.inl ⟨List.infix_cons h1, h2⟩
-        · exact Or.inr ⟨u, hu.trans (List.suffix_cons c r), hpu⟩
-    · rw [hc] at h
-      have h' : p <:+: (92 :: t) ++ (quoteBody r ++ [34]) := by simpa using h
-      have hskip := infix_skip hp (u := 92 :: t) (by
-        intro x hx
-        rcases List.mem_cons.mp hx with rfl | hx
-        · decide
-        · exact ht x hx) h'
-      rcases infix_quoteBody hp h92 r hskip with ⟨h1, h2⟩ | ⟨u, hu, hpu⟩
-      · exact Or.inl ⟨List.infix_cons h1, h2⟩
-      · exact Or.inr ⟨u, hu.trans (List.suffix_cons c r), hpu⟩
+/-! ### pieces of the marshalled text and what the pre-pass makes of them -/
 
-/-! ### what `prepassHits s = false` excludes -/
+/-- starting outside a literal with nothing pending, the pre-pass turns `a` into `a'` and is
+again outside a literal with nothing pending -/
+def Good (a a' : Str) : Prop := ∀ rest, ppOut [] (a ++ rest) = a' ++ ppOut [] rest
 
-theorem endsTerm_append_singleton {c : Nat} (hc : patChar c = false) : ∀ (x : Str), endsTerm (x ++ [c]) = true
-  | [] => by simp [endsTerm, hc]
-  | [a] => by simp [endsTerm, hc]
-  | a :: b :: r => by
-    have := endsTerm_append_singleton hc (b :: r)
-    simpa [endsTerm] using this
+theorem Good.nil : Good [] [] := fun _ => rfl
 
-theorem snoc_eq {p u : Str} {c : Nat} (h : p = u ++ [c]) : p.getLast? = some c ∧ p.dropLast = u := by
-  subst h; simp
+theorem Good.append {a a' b b' : Str} (ha : Good a a') (hb : Good b b') : Good (a ++ b) (a' ++ b') := by
+  intro rest
+  rw [List.append_assoc, ha, hb, List.append_assoc]
 
-/-- the two ways a pattern can occur in a quoted string or key are both excluded -/
-theorem pattern_absent {s : Str} (h : prepassHits s = false) {p : Str} (hp : p ∈ allPats) :
-    ¬ ((p <:+: s ∧ ∀ x ∈ p, x ≠ 34) ∨ (∃ u, u <:+ s ∧ p = u ++ [34])) := by
-  simp only [prepassHits, Bool.or_eq_false_iff, containsSub_false_iff] at h
-  obtain ⟨⟨⟨⟨⟨⟨⟨h41, hC⟩, hTx⟩, hTr⟩, hI⟩, hL⟩, hB⟩, hD⟩ := h
-  have h41' : (41 : Nat) ∉ s := by
-    intro hm; simp at h41; exact h41 hm
-  have hB' : ¬ cp%"BinData(" <:+ s := fun hh => by simp [endsWith_iff.mpr hh] at hB
-  have hD' : ¬ cp%"Date(" <:+ s := fun hh => by simp [endsWith_iff.mpr hh] at hD
-  have hInt : cp%"Int(" <:+: d17 := containsSub_iff.mp (by decide)
-  simp only [allPats, replacements, List.map_cons, List.map_nil, List.mem_cons, List.not_mem_nil, or_false] at hp
-  rintro (⟨hin, h34⟩ | ⟨u, hu, hpu⟩)
-  · rcases hp with rfl | rfl | rfl | rfl | rfl | rfl | rfl | rfl | rfl | rfl | rfl
-    · exact hI (hInt.trans hin)
-    · exact h41' (hin.subset (by decide))
-    · exact h41' (hin.subset (by decide))
-    · exact hC hin
-    · exact hTx hin
-    · exact hTr hin
-    · exact hI hin
-    · exact hL hin
-    · exact h34 34 (by decide) rfl
-    · exact h34 34 (by decide) rfl
-    · exact h41' (hin.subset (by decide))
-  · obtain ⟨hl, hd⟩ := snoc_eq hpu
-    rcases hp with rfl | rfl | rfl | rfl | rfl | rfl | rfl | rfl | rfl | rfl | rfl
-    · simp [d17] at hl
-    · simp at hl
-    · simp at hl
-    · simp at hl
-    · simp at hl
-    · simp at hl
-    · simp at hl
-    · simp at hl
-    · exact hB' (by rw [← hd] at hu; simpa using hu)
-    · exact hD' (by rw [← hd] at hu; simpa using hu)
-    · simp at hl
+/-- a piece between literals -/
+theorem Good.outside {o o' : Str} (hq : ∀ c ∈ o, c ≠ 34) (hd : Dist o) (he : preprocessTokens o = o') :
+    Good o o' := by
+  intro rest
+  rw [ppOut_noquote o [] rest hq, List.nil_append, ppOut_flush hd, he]
 
-/-- strconv.Quote of a string without pre-pass hits is inert -/
-theorem quote_inert {s : Str} (h : prepassHits s = false) : inertAll (quote s) = true := by
-  rw [inertAll_iff]
-  intro p hp
-  have hhead := (List.all_eq_true.mp allPats_headStart) p hp
-  have h92 : ∀ x ∈ p, x ≠ 92 := by
-    have := (List.all_eq_true.mp allPats_no92) p hp
-    intro x hx; simpa using (List.all_eq_true.mp this) x hx
-  have hdl := (List.all_eq_true.mp allPats_dropLast) p hp
-  have hterm : endsTerm (quote s) = true := by
-    have := endsTerm_append_singleton (c := 34) (by decide) (34 :: quoteBody s)
-    simpa [quote] using this
-  refine ⟨endSafe_of_endsTerm hdl hterm, ?_⟩
-  rw [containsSub_false_iff]
-  intro hin
-  simp only [quote, List.infix_cons_iff] at hin
-  rcases hin with hin | hin
-  · exact isPrefixOf_cons_ne hhead (by decide) hin
-  · exact pattern_absent h hp (infix_quoteBody hhead h92 s hin)
+/-- a string literal -/
+theorem Good.strLit {body : Str} (h : litBody body = true) : Good (34 :: (body ++ [34])) (34 :: (body ++ [34])) := by
+  intro rest
+  have e : 34 :: (body ++ [34]) ++ rest = 34 :: (body ++ 34 :: rest) := by simp
+  rw [e]
+  simp only [ppOut, beq_self_eq_true, if_true]
+  rw [ppIn_lit body rest h]
+  simp [preprocessTokens, dedupHead, applyReplacements, replacements, replaceAll, replaceAllAux]
 
-/-! ### raw keys -/
+theorem Good.quote (s : Str) : Good (quote s) (quote s) := Good.strLit (litBody_quoteBody s)
 
-/-- an occurrence inside `k ++ ":` – `k` without quote – lies inside `k` or ends with the
-closing quote after a suffix of `k` -/
-theorem infix_key {p : Str} (hp : headStart p = true) (h58 : ∀ x ∈ p, x ≠ 58) :
-    ∀ (k : Str), (∀ x ∈ k, x ≠ 34) → p <:+: k ++ [34, 58] →
-      (p <:+: k ∧ ∀ x ∈ p, x ≠ 34) ∨ (∃ u, u <:+ k ∧ p = u ++ [34])
-  | [], _, h => by
-    have := infix_skip (u := [34, 58]) (Y := []) hp (by decide) (by simpa using h)
-    cases p with
-    | nil => simp [headStart] at hp
-    | cons a p' => simp at this
-  | c :: r, hk, h => by
-    simp only [List.cons_append, List.infix_cons_iff] at h
-    rcases h with h | h
-    · -- the occurrence starts at c
-      rcases List.prefix_or_prefix_of_prefix h (List.prefix_append (c :: r) [34, 58]) with h1 | h1
-      · left
-        refine ⟨h1.isInfix, ?_⟩
-        intro x hx; exact hk x (h1.subset hx)
-      · obtain ⟨t, ht⟩ := h1
-        obtain ⟨t', ht'⟩ := h
-        -- p = (c :: r) ++ t and p ++ t' = (c :: r) ++ [34, 58]
-        have : t ++ t' = [34, 58] := by
-          have h2 : (c :: r) ++ (t ++ t') = (c :: r) ++ [34, 58] := by
-            rw [← List.append_assoc, ht]; simpa using ht'
-          exact List.append_cancel_left h2
-        match t, this with
-        | [], _ =>
-          left
-          simp only [List.append_nil] at ht
-          subst ht
-          exact ⟨List.infix_refl _, hk⟩
-        | [a], h3 =>
-          have : a = 34 := by simp at h3; exact h3.1
-          subst this
-          right; exact ⟨c :: r, List.suffix_refl _, ht.symm⟩
-        | a :: b :: t2, h3 =>
-          have hb : b = 58 := by simp at h3; exact h3.2.1
-          subst hb
-          exact absurd rfl (h58 58 (by rw [← ht]; simp))
-    · rcases infix_key hp h58 r (fun x hx => hk x (List.mem_cons_of_mem _ hx)) h with ⟨h1, h2⟩ | ⟨u, hu, hpu⟩
-      · exact Or.inl ⟨List.infix_cons h1, h2⟩
-      · exact Or.inr ⟨u, hu.trans (List.suffix_cons c r), hpu⟩
-
-/-- the key piece `"k":` -/
-def keyPiece (k : Str) : Str := [34] ++ k ++ [34, 58]
-
-theorem key_inert {k : Str} (h : prepassHits k = false) (hq : ∀ x ∈ k, x ≠ 34) : inertAll (keyPiece k) = true := by
-  rw [inertAll_iff]
-  intro p hp
-  have hhead := (List.all_eq_true.mp allPats_headStart) p hp
-  have h58 : ∀ x ∈ p, x ≠ 58 := by
-    have := (List.all_eq_true.mp allPats_no58) p hp
-    intro x hx; simpa using (List.all_eq_true.mp this) x hx
-  have hdl := (List.all_eq_true.mp allPats_dropLast) p hp
-  have hterm : endsTerm (keyPiece k) = true := by
-    have := endsTerm_append_singleton (c := 58) (by decide) ([34] ++ k ++ [34])
-    simpa [keyPiece] using this
-  refine ⟨endSafe_of_endsTerm hdl hterm, ?_⟩
-  rw [containsSub_false_iff]
-  intro hin
-  simp only [keyPiece, List.cons_append, List.infix_cons_iff] at hin
-  rcases hin with hin | hin
-  · exact isPrefixOf_cons_ne hhead (by decide) hin
-  · exact pattern_absent h hp (infix_key hhead h58 k hq hin)
+theorem Good.eq {a a' : Str} (h : Good a a') : preprocess a = a' := by
+  have := h []
+  simpa [preprocess, ppOut, preprocessTokens, dedupHead, applyReplacements, replacements, replaceAll,
+    replaceAllAux] using this
 
 end Yorkie.Yson
